@@ -25,6 +25,7 @@ SCENARIOS = [
     (r'__await__\.wait/callsite:process_event/requires:inline_bus_is_running', 'rp_stop_then_inline.py'),
     (r'__await__\.wait/(exit:every_taken_event_is_task_done|loop.*nothing_in_hand)', 'rp_timeout_inline_accounting.py'),
     (r'__await__\.wait/callsite:process_event/requires:inline_target', 'rp_await_runs_unrelated.py'),
+    (r'__await__\.wait/(loop#\d+:.*awaited_event_not_complete_yet|callsite:get_nowait/requires:stops_draining)', 'rp_await_drains_after_completion.py'),
     (r'__await__\.wait/ensures:complete_at_return_inside_handlers', 'rp_await_gives_up.py'),
     (r'__await__\.wait/callsite:event_completed_signal\.wait/requires:no_blocking_wait', 'rp_await_done_child_with_queued_descendant.py'),
     (r'__await__\.wait/callsite:get_nowait/requires', 'rp_fifo_inversion.py'),
